@@ -231,6 +231,10 @@ def run(check: core.Check) -> None:
         "the rendered text of the result is not modelled (only acceptance and result type); TLC -coverage is not usable "
         "on these specifications (out of memory in the cost model), vacuity is controlled by the observation classes "
         "and the *Strict / seeded-bug configurations instead",
+        "PercentFields.tla / StrFields.tla only decide WHICH cases are looked at (their slot plan / required-count "
+        "heuristics are not oracles): they EXTEND PercentFormat.tla / StrFormat.tla and every case is judged by the "
+        "same Ref*/Impl* operators, invariants and trace specifications; a named deviation class excuses an "
+        "observation only if the Impl model reproduces the real first report (ModelReproduces in the trace specs)",
     ]
 
     t_phase = time.time()
